@@ -61,12 +61,16 @@ def extension(ck, work, thorough):
         raise vlib.Infra("negative control (Multi.Stitch without the flush) not refuted: %s" % r.violated)
     ck.mc("MultiExtNeg (extension)", r, "Stitch without flushing first is refuted")
     total, drift, first = 0, 0, None
-    for small in (False, True):
-        p = os.path.join(work, "multiext%d.ndjson" % small)
-        vlib.harness(["multiext", "-n", 6000 if thorough else 800, "-seed", ck.seed, "-out", p] + (["-small"] if small else []),
-                     cmd="vseq")
+    for small in (False, True, None):
+        p = os.path.join(work, "multiext%s.ndjson" % small)
+        if small is None:
+            # sequtils calls on quality vectors (seq/quality)
+            vlib.harness(["qualcalls", "-n", 8000 if thorough else 1000, "-seed", ck.seed, "-out", p], cmd="vseq")
+        else:
+            vlib.harness(["multiext", "-n", 6000 if thorough else 800, "-seed", ck.seed, "-out", p] + (["-small"] if small else []),
+                         cmd="vseq")
         v, r = vlib.validate("Seq", "SeqTrace", "SeqTrace.cfg", p, timeout=3000)
-        ck.mc("trace:multiext%s (extension)" % ("-small" if small else ""), r, "%d events" % v["events"])
+        ck.mc("trace:%s (extension)" % ("qualcalls" if small is None else "multiext-small" if small else "multiext"), r, "%d events" % v["events"])
         if v["fails"]:
             raise vlib.Infra("extension events produced verdicts: %s" % v["fails"][:2])
         total += v["events"]
@@ -76,7 +80,7 @@ def extension(ck, work, thorough):
     ck.extra["extension_events"] = total
     ck.extra["extension_drift"] = drift
     if drift:
-        vlib.log("  [note] extension (MultiExt.tla): %d of %d Multi operations differ from the specification "
+        vlib.log("  [note] extension (MultiExt.tla, quality vectors): %d of %d operations differ from the specification "
                  "(drift, no verdict); first: %s" % (drift, total, json.dumps(first)[:700]))
 
 
